@@ -336,6 +336,6 @@ def genericSplit (f : Finder) (units : List Nat) (unicode : Bool) (lim : Nat) : 
   if lim == 0 then []
   else if units.length == 0 then
     (match matchAt f 0 with | none => [some []] | some _ => [])
-  else splitLoop f units unicode lim (units.length + 2) 0 0 []
+  else splitLoop f units unicode lim (2 * units.length + 3) 0 0 []
 
 end GojaModel.C20
